@@ -18,7 +18,7 @@ func init() {
 		Explanation: "Guarded-index analysis of the reply decoder (every function of package response reachable from NetconfResponse.Record, plus the NETCONF reader's id helper): for every index and slice operation the obligations 0 <= i < len(s) / 0 <= lo <= hi <= len(s) (len, not cap: reading up to the capacity returns bytes the server never sent) are discharged as linear inequalities from dominating branch edges, non-negativity of len() and of loop counters (inductive over phis) and case splits over phi operands; so decoding cannot panic on an index/slice and cannot over-read for ANY byte string. " +
 			"Also: every strconv conversion error is checked and leads to an error return; every error of the chunk parser stores a non-nil OperationError in Failed; the success return of the chunk parser is reachable only through the end-of-chunks ('##') detection; on the 1.1 path the failure scan is also applied to the de-chunked payload (markers split by a chunk boundary); every value stored to Result derives from RawResult through slicing, append, bytes.Trim* and conversion only. " +
 			"NOT decided: equality of Result with the payload for every chunk partition (cursor arithmetic beyond bounds), the message-boundary regular expressions of the reader, read segmentation.",
-		Assumptions: []string{"no integer overflow in cursor arithmetic (sizes are bounded by the length of the data by the guards themselves)", "bytes.Trim*/TrimSpace/TrimPrefix return sub-slices of their argument"},
+		Assumptions: []string{"no integer overflow in cursor arithmetic (sizes are bounded by the length of the data by the guards themselves)", "bytes.Trim*/TrimSpace/TrimPrefix return sub-slices of their argument", "bytes.IndexByte / strings.IndexByte return -1 or an index smaller than the length of their first argument (documented result)"},
 		Mutants: []Mutant{
 			{ID: "C02-eom-window", Desc: "reader looks for the end-of-message marker in the last 1000 bytes only", Rule: "C02/eom-whole-buffer",
 				Edits: []Edit{{File: "driver/netconf/read.go", Old: "\t\tfor d.Channel.PromptPattern.Match(b) { //nolint: nestif", New: "\t\ttail := b\n\t\tif len(tail) > d.Channel.PromptSearchDepth {\n\t\t\ttail = tail[len(tail)-d.Channel.PromptSearchDepth:]\n\t\t}\n\n\t\tfor d.Channel.PromptPattern.Match(tail) { //nolint: nestif"},
